@@ -66,3 +66,27 @@ theorem blind_injective (n : ℕ) [Fact n.Prime] (P : G) (hP : n • P = 0) (hP0
   · exact key b a hab h.symm (fun e => hne e.symm)
 
 end PatVerif.Proofs.Group
+
+namespace PatVerif.Proofs.Group
+
+/-- **blind RSA**: unblinding removes exactly the blind that was applied — for every modulus `N`,
+every exponent pair that inverts on the ring (`(x^e)^d = x`), every message representative `m`
+and every invertible blind `r`: `(m·r^e)^d · r⁻¹ = m^d`. -/
+theorem rsa_unblind (N e d : ℕ) (hed : ∀ x : ZMod N, (x ^ e) ^ d = x) (m : ZMod N) (r : (ZMod N)ˣ) :
+    (m * (r : ZMod N) ^ e) ^ d * ((r⁻¹ : (ZMod N)ˣ) : ZMod N) = m ^ d := by
+  rw [mul_pow, hed, mul_assoc, Units.mul_inv, mul_one]
+
+/-- hence the unblinded signature does not depend on the blind -/
+theorem rsa_blind_independent (N e d : ℕ) (hed : ∀ x : ZMod N, (x ^ e) ^ d = x) (m : ZMod N) (r r' : (ZMod N)ˣ) :
+    (m * (r : ZMod N) ^ e) ^ d * ((r⁻¹ : (ZMod N)ˣ) : ZMod N) =
+    (m * (r' : ZMod N) ^ e) ^ d * ((r'⁻¹ : (ZMod N)ˣ) : ZMod N) := by
+  rw [rsa_unblind N e d hed, rsa_unblind N e d hed]
+
+/-- **VOPRF**: the unblinded evaluation `r⁻¹ • (k • (r • P))` is `k • P` for every non-zero blind,
+so it does not depend on the blind -/
+theorem voprf_blind_independent {G : Type} [AddCommGroup G] (n : ℕ) [Fact n.Prime] (P : G) (hP : n • P = 0)
+    (k r r' : ℕ) (hr : ¬ n ∣ r) (hr' : ¬ n ∣ r') :
+    ((r : ZMod n)⁻¹).val • (k • (r • P)) = ((r' : ZMod n)⁻¹).val • (k • (r' • P)) := by
+  rw [blind_cancels n P hP r k hr, blind_cancels n P hP r' k hr']
+
+end PatVerif.Proofs.Group
